@@ -133,7 +133,7 @@ def handle (cmd : String) (args : List String) : Option String :=
       match gsubRead d with
       | .error e => some (errStr e)
       | .ok g =>
-        some (" | ".intercalate (sets.map (fun s => closureStr (closureGlyphs g (G16.ofList s) 70000 2000000))))
+        some (" | ".intercalate (sets.map (fun s => closureStr (closureGlyphs g (G16.ofList s)))))
     | _, _ => none
   | "hl.slist", hex :: rest =>
     -- `rest` = tags for `index_for_tag` | tags for `select`
